@@ -23,62 +23,56 @@ def _site_ctx(ctx, s):
     return ctx.site(s.body, s.bb, s.obj.get("span"))
 
 
+def is_tmp_create(ctx, s):
+    """the File::create by which try_resolve(create=true) makes a missing temp target exist (the helper `create_file` of the
+    reviewed tree is always spliced into try_resolve before the rules run)"""
+    tr = body(ctx, "try_resolve")
+    return tr is not None and s.body is tr and s.cls == "CREATE_TRUNC" and s.role is None and s.kind == "call"
+
+
 def _check_tmp_create(ctx, s):
-    """File::create inside abs_path::create_file: reachable only via try_resolve(create=true) from the temp writer"""
+    """File::create inside try_resolve: only on the true edge of `create`, on the path that is returned, and create=true is passed
+    only by the temp writer outside Clean"""
     lib = ctx.lib
-    cf = body(ctx, "create_file")
     tr = body(ctx, "try_resolve")
     wt = body(ctx, "write_temp_file")
-    if not (cf and tr and wt):
+    if not (tr and wt) or not is_tmp_create(ctx, s):
         return False
-    if s.body is not cf:
-        return False
-    # operand of File::create is create_file's parameter
-    lv = C.trace(cf, s.obj["args"][0])
-    if not lv or not all(l.kind == "param" for l in lv):
-        ctx.violation([s.key(), "operand"], "File::create in create_file no longer takes the function's path parameter",
-                      site=_site_ctx(ctx, s))
-        return True
     ok = True
-    ments = C.all_mentions(lib, lambda ns: ROLE["create_file"] in ns)
-    for (b, kind, bb, names, obj) in ments:
-        if b is not tr or kind != "call":
-            ctx.violation(["create_file-mention", b.name], "create_file is mentioned outside try_resolve", site=ctx.site(b, bb), rule="R10.2")
-            ok = False
-            continue
-        pcreate = tr.param_index_by_name("create")
-        cut = C.guard_edges(tr, lib, lambda c, v, leaf: c.kind == "bool" and leaf is not None and leaf.kind == "param"
-                            and leaf.data == pcreate and v is True)
-        if pcreate is None or not C.guarded(tr, bb, cut):
-            ctx.violation(["create_file-guard", tr.name], "create_file call is not guarded by the true edge of `create`",
-                          site=ctx.site(tr, bb), witness=C.witness(tr, bb, cut), rule="R10.2")
-            ok = False
-        # the created path is the path that is returned (share_base argument)
-        la = {(l.kind, l.bb) for l in C.trace(tr, obj["args"][0])}
-        sb = calls_to(tr, ROLE["share_base"])
-        lb = set()
-        for sbb, st in sb:
-            lb |= {(l.kind, l.bb) for l in C.trace(tr, st["args"][1])}
-        if not la or not la <= lb:
-            ctx.violation(["create_file-path", tr.name], "the path created by try_resolve is not the path it returns",
-                          site=ctx.site(tr, bb))
-            ok = False
+    bb, obj = s.bb, s.obj
+    pcreate = tr.param_index_by_name("create")
+    cut = C.guard_edges(tr, lib, lambda c, v, leaf: c.kind == "bool" and leaf is not None and leaf.kind == "param"
+                        and leaf.data == pcreate and v is True)
+    if pcreate is None or not C.guarded(tr, bb, cut):
+        ctx.violation(["create_file-guard", tr.name], "the file creation in try_resolve is not guarded by the true edge of `create`",
+                      site=ctx.site(tr, bb), witness=C.witness(tr, bb, cut), rule="R10.2")
+        ok = False
+    # the created path is the path that is returned (share_base argument)
+    la = {(l.kind, l.bb) for l in C.trace(tr, obj["args"][0])}
+    sb = calls_to(tr, ROLE["share_base"])
+    lb = set()
+    for sbb, st in sb:
+        lb |= {(l.kind, l.bb) for l in C.trace(tr, st["args"][1])}
+    if not la or not la <= lb:
+        ctx.violation(["create_file-path", tr.name], "the path created by try_resolve is not the path it returns",
+                      site=ctx.site(tr, bb))
+        ok = False
     # callers of try_resolve that may pass create=true
-    for (b, bb, t) in C.all_call_sites(lib, lambda ns, t: ROLE["try_resolve"] in ns):
+    for (b, cbb, t) in C.all_call_sites(lib, lambda ns, t: ROLE["try_resolve"] in ns):
         v = C.op_const(t["args"][2]) if len(t["args"]) > 2 else None
         if v == "false":
             continue
         if b is not wt:
             ctx.violation(["try_resolve-create", b.name], "try_resolve(_, create != false) outside the temp-file writer: "
-                          "a missing path would be created", site=ctx.site(b, bb), rule="R10.2")
+                          "a missing path would be created", site=ctx.site(b, cbb), rule="R10.2")
             ok = False
-        elif "Clean" in modes(ctx).site_modes(b, bb):
+        elif "Clean" in modes(ctx).site_modes(b, cbb):
             ctx.violation(["try_resolve-create-clean", b.name], "try_resolve(_, create != false) reachable in Clean mode", rule="R10.2",
-                          site=ctx.site(b, bb))
+                          site=ctx.site(b, cbb))
             ok = False
     if ok:
         ctx.ok("TMP-CREATE|%s" % s.key(), site=_site_ctx(ctx, s),
-               detail="create_file <- try_resolve[create true edge] <- write_temp_file (non-Clean)")
+               detail="File::create <- try_resolve[create true edge] <- write_temp_file (non-Clean)")
     return True
 
 
@@ -200,7 +194,7 @@ def r06_1(ctx):
         site = _site_ctx(ctx, s)
         if s.cls in ("CREATE_TRUNC", "REMOVE", "WRITE_HANDLE") and s.role == "TMP":
             continue      # temp targets are (re)written in verify by design
-        if s.cls == "CREATE_TRUNC" and s.role is None and s.body.name == ROLE["create_file"]:
+        if is_tmp_create(ctx, s):
             continue      # TMP-CREATE, checked by R10.2
         if "Verify" in s.modes:
             ctx.violation([s.key()], "%s (%s) is reachable in Verify mode: verify must not create, modify or delete outputs" % (s.name, s.cls), site=site)
@@ -798,7 +792,7 @@ def r09_2(ctx):
     for s in fs_inventory(ctx):
         if s.prog.label != "lib" or s.cls not in ("CREATE_TRUNC", "WRITE_HANDLE", "REMOVE", "OTHER_MUTATING"):
             continue
-        if s.role == "TMP" or (s.role is None and s.body.name == ROLE["create_file"]):
+        if s.role == "TMP" or is_tmp_create(ctx, s):
             continue
         site = _site_ctx(ctx, s)
         in_done = dn is not None and (s.body is dn or s.body.root == dn.name)
